@@ -394,7 +394,53 @@ def fam_help2w(rng):
     return prog_with_setup(rng, th, strategy="nofast", reuse=rng.choice(["never", "lifo"]), pnull=0.0)
 
 
+def fam_adv(rng):
+    """C08: a reader whose every step is followed by k complete writes (adversary), with 0..12 guards already held"""
+    held = rng.choice([0, 0, 3, 7, 8, 12])
+    t = 1
+    ops = [{"op": "load", "c": 0, "g": 90}, {"op": "drop_g", "g": 90}]        # the thread has used the crate before
+    for i in range(held):
+        ops.append({"op": "load", "c": 0, "g": 100 + i})
+    for i in range(rng.randrange(1, 4)):
+        if rng.random() < 0.5:
+            ops += [{"op": "load", "c": 0, "g": t * R + i}, {"op": "deref_g", "g": t * R + i}]
+        else:
+            ops += [{"op": "load_full", "c": 0, "h": t * R + i}, {"op": "deref_h", "h": t * R + i}]
+    th = [ops]
+    nw = rng.choice([1, 1, 2])
+    for w in range(2, 2 + nw):
+        th.append([{"op": "store", "c": 0, "v": new()} for _ in range(rng.choice([60, 150, 300]))])
+    p = prog_with_setup(rng, th, strategy=rng.choice(["default", "default", "nofast"]), reuse="lifo", pnull=0.0)
+    p["_sched"] = {"kind": "adversary", "victim": 1, "k": rng.choice([1, 1, 2, 4])}
+    return p
+
+
+def fam_solo(rng):
+    """C09: at a random point everybody but one thread is frozen; that thread must finish its operation alone"""
+    base = rng.choice([fam_mixed, fam_multi, fam_guards, fam_cas, fam_rw2, fam_help2w, fam_solo2c])(rng)
+    n = len(base["threads"])
+    base["_sched"] = {"kind": "solo", "base": {"kind": "random", "seed": rng.randrange(1 << 30), "p": rng.choice([0.2, 0.5, 0.9])},
+                      "at": rng.randrange(3, 200), "t": rng.randrange(1, n)}
+    return base
+
+
+def fam_solo2c(rng):
+    """readers on the fallback path of one container, writers on another one"""
+    th = []
+    t = 1
+    ops = [{"op": "pad", "c": 0, "free": 0, "base": 300}] if rng.random() < 0.5 else []
+    for i in range(rng.randrange(2, 5)):
+        ops += [{"op": "load", "c": 0, "g": t * R + i}, {"op": "drop_g", "g": t * R + i}]
+    th.append(ops)
+    for t in range(2, 2 + rng.choice([1, 2])):
+        th.append([{"op": rng.choice(["store", "store", "swap"]), "c": 1, "v": new(), "h": t * R} for _ in range(rng.randrange(1, 4))])
+    return prog_with_setup(rng, th, cs=(0, 1), strategy=rng.choice(["nofast", "default"]), pnull=0.0)
+
+
 FAMILIES = {
+    "adv": fam_adv,
+    "solo": fam_solo,
+    "solo2c": fam_solo2c,
     "help2w": fam_help2w,
     "aba": fam_aba,
     "panic_help": fam_panic_help,
@@ -419,7 +465,8 @@ def gen(fams, n, seed, start_id=0):
     for i in range(n):
         f = names[i % len(names)]
         prog = FAMILIES[f](rng)
-        jobs.append({"id": start_id + i, "fam": f, "prog": prog, "sched": sched_of(rng, nthreads=len(prog["threads"]))})
+        sch = prog.pop("_sched", None) or sched_of(rng, nthreads=len(prog["threads"]))
+        jobs.append({"id": start_id + i, "fam": f, "prog": prog, "sched": sch})
     return jobs
 
 
